@@ -412,13 +412,124 @@ def leave_race_run(kind, who, mode):
     return run
 
 
+# ------------------------------------------------------------------ a client that connects and is gone at once
+def arrive_leave_run(kind, mode, unix=False):
+    """a client connects and immediately leaves (drop / reset) - nothing waits for the server to have noticed the arrival;
+    on every schedule in the window the server must end up holding nothing for it and its hooks must balance"""
+    def run(choices, want_state, cut_fn):
+        box = {}
+
+        def main():
+            sch = S.current_sched()
+            sch.armed = False
+            srv = H.make_server(kind, unix=unix, nthreads=1)
+            st = S.SimThread(target=srv.start, name="server")
+            st.start()
+            S.sim_time.sleep(0.2)
+            c = H.Client("a", unix=unix, timeout=10)
+            res = {}
+
+            def come_and_go():
+                fam = simos._real_socket.AF_UNIX if unix else simos._real_socket.AF_INET
+                s = simos.SimSocket(fam)
+                try:
+                    s.connect(H.UNIX_PATH if unix else ("127.0.0.1", H.PORT))
+                except OSError:
+                    res["connect"] = "refused"
+                    return
+                if mode.endswith("-when-registered"):
+                    # forced collision: leave at the very moment the server has started tracking the connection
+                    S.current_sched().block(lambda: bool(getattr(srv, "poll_object", None) and srv.poll_object.reg) or
+                                            (not hasattr(srv, "poll_object") and bool(srv.clients)), S.sim_time.time() + 5, "gate")
+                if mode.startswith("reset"):
+                    import struct
+                    s.setsockopt(simos._real_socket.SOL_SOCKET, simos._real_socket.SO_LINGER, struct.pack("ii", 1, 0))
+                s.close()
+                res["connect"] = "gone"
+            t = S.SimThread(target=come_and_go, name="visitor")
+            sch.armed = True
+            t.start()
+            t.join(100)
+            S.sim_time.sleep(1.5)
+            sch.armed = False
+            res["acct"] = H.server_accounting(srv, [c])
+            res["hooks"] = sorted((i.connected, i.disconnected) for i in H.Svc.instances)
+            # the server still serves
+            res["later.connect"] = c.connect()
+            res["later.call"] = c.call("echo", 1)[:2]
+            c.graceful()
+            S.sim_time.sleep(0.5)
+            res["acct2"] = H.server_accounting(srv, [c])
+            srv.close()
+            S.sim_time.sleep(0.5)
+            box["res"] = res
+            c.actor.stop = True
+
+        def state_fn(s):
+            k = simos.kernel()
+            return canon.state_key(s, [k.fds, k.bound, H.Svc.instances], canon.DEFAULT_PREFIXES + (env.VERIF + "/mc/srvharness.py",))
+
+        import gc
+        gc.disable()
+        simos.reset_kernel()
+        del H.Svc.instances[:]
+        sch = S.Scheduler(choices, sync_points=True, io_points=True, horizon=5000, max_steps=400000,
+                          state_fn=state_fn if want_state else None, cut_fn=cut_fn)
+        sch.run(main)
+        res = box.get("res")
+        if sch.outcome == "cut":
+            return sch, {"violations": [], "outcome_key": None}
+        viol = []
+        tag = "%s:%s" % (kind, mode)
+        if sch.outcome != "done" or res is None:
+            viol.append(("arrive-leave:scheduler:%s:%s" % (tag, sch.outcome), repr(sch.deadlock_info) + repr(sch.threads[0].exc)))
+            return sch, {"violations": viol, "outcome_key": sch.outcome}
+        a = res["acct"]
+        if a["fds"] != 1 or a.get("clients") or a.get("fd_to_conn") or a.get("poll"):
+            viol.append(("arrive-leave:entries-left-for-departed-client:%s" % tag, repr(a)))
+        if any(h[0] != h[1] for h in res["hooks"]):
+            viol.append(("arrive-leave:disconnect-hook-missing:%s" % tag, repr(res["hooks"])))
+        if res["later.call"] != ("value", ("echo", 1)):
+            viol.append(("arrive-leave:later-client-not-served:%s" % tag, repr(res["later.call"])))
+        a2 = res["acct2"]
+        if a2["fds"] != 1 or a2.get("clients") or a2.get("fd_to_conn") or a2.get("poll"):
+            viol.append(("arrive-leave:entries-left-after-later-client:%s" % tag, repr(a2)))
+        return sch, {"violations": viol, "outcome_key": (tuple(sorted(a.items())), tuple(res["hooks"]), res["later.call"])}
+    return run
+
+
+ARRIVE_LEAVE = [(k, m, u) for k in ("pool", "threaded") for m in ("drop", "reset", "drop-when-registered", "reset-when-registered")
+                for u in (False, True) if not (u and m.startswith("reset"))]
+
+
+def explore_arrive_leave(res, tier, unlisted):
+    watch_close_lines()
+    for kind, mode, unix in ARRIVE_LEAVE:
+        if any(unlisted(v[0]) for v in res.violations):
+            return
+        ex = explore.ParallelExplorer(arrive_leave_run(kind, mode, unix), bound=2 if tier == "quick" else 3, use_cache=False,
+                                      deviations=True, task_execs=40, warmup_execs=4, max_seconds=120 if tier == "quick" else 1500,
+                                      stop_on_violation=unlisted)
+        ex.explore()
+        ex.stats.states = max(ex.stats.states, ex.stats.executions)
+        ex.stats.transitions = max(ex.stats.transitions, ex.stats.executions)
+        best = {}
+        for sig, text, ch in ex.violations:
+            if sig not in best or len(ch) < len(best[sig][1]):
+                best[sig] = (text, ch)
+        ex.violations = [(sg, t, ch) for sg, (t, ch) in sorted(best.items())]
+        name = "arrive-leave/%s/%s/%s" % (kind, mode, "unix" if unix else "tcp")
+        res.add_explorer(name, ex)
+        res.bounds[name] = "deviations<=%s" % ex.stats.bound_completed
+
+
 def watch_close_lines():
     from mc import trace
     from rpyc.utils import server as rs
     if _watched_close[0]:
         return
     trace.watch([rs.Server._authenticate_and_serve_client, rs.Server.close, rs.ThreadPoolServer.close,
-                 rs.ThreadPoolServer._drop_connection, rs.ThreadPoolServer._handle_poll_result])
+                 rs.ThreadPoolServer._drop_connection, rs.ThreadPoolServer._handle_poll_result, rs.ThreadPoolServer._accept_method])
     _watched_close[0] = True
 
 
@@ -638,6 +749,11 @@ def replay(rep):
         watch_pool_lines()
         a = reuse_from_part(rep["part"], "C17")(rep["choices"], False, None)[1]["violations"]
         b = reuse_from_part(rep["part"], "C17")(rep["choices"], False, None)[1]["violations"]
+    elif rep.get("part", "").startswith("arrive-leave"):
+        watch_close_lines()
+        _, kind, mode, fam = rep["part"].split("/")
+        a = arrive_leave_run(kind, mode, fam == "unix")(rep["choices"], False, None)[1]["violations"]
+        b = arrive_leave_run(kind, mode, fam == "unix")(rep["choices"], False, None)[1]["violations"]
     elif rep.get("part", "").startswith("leave-race"):
         watch_close_lines()
         _, kind, who, mode = rep["part"].split("/")
@@ -705,6 +821,7 @@ def main(tier, replay_obj=None):
         res.bounds["race/%s" % kind] = ex.stats.bound_completed
     explore_reuse(res, tier, "C17", unlisted)
     explore_leave_race(res, tier, unlisted)
+    explore_arrive_leave(res, tier, unlisted)
     res.assumptions = ["simulated kernel (conformance-tested against the real one in selftest) - no socket buffer limits, no RST/FIN subtleties",
                        "each event is followed by %.1f virtual seconds of settling" % SETTLE,
                        "forking server: fork() is emulated for the one call shape rpyc uses (see mc/simos.py); signals other than SIGCHLD are not modelled"]
